@@ -2,8 +2,9 @@ SPECIFICATION Spec
 CONSTANTS
   Modes = {"do-nothing", "queue", "restart", "signal"}
   Postpones = {TRUE, FALSE}
-  D = 1
-  G = 2
+  Ds = {1}
+  Delays = {0}
+  Gs = {2}
   MaxChanges = 3
   MaxTime = 9
   WaiterAtomic = FALSE
